@@ -76,6 +76,13 @@ Theorem C13_fresh_function :
 Proof. intros deep h fuel f st f' Hc Hf Hr Hd x. apply (P_function_fresh deep h fuel Hc f st f' x Hd Hf Hr). Qed.
 Print Assumptions C13_fresh_function.
 
+(* GraphView.clone is Graph.clone's cloner with allow_outer_scope_values at its default False: every theorem
+   about [graph_clone fuel false deep] is a theorem about GraphView.clone *)
+Theorem C13_view_clone_is_graph_clone :
+  forall fuel deep g h, view_clone fuel deep g h = graph_clone fuel false deep g h.
+Proof. reflexivity. Qed.
+Print Assumptions C13_view_clone_is_graph_clone.
+
 (* the clone is always a Graph, never a view *)
 Theorem C13_clone_is_graph :
   forall allow deep h fuel g st g',
@@ -134,6 +141,14 @@ Theorem C13_independent_step :
     inv col s h -> op_sided col s h o -> apply_op h o = (h', r) -> inv col s h' /\ frame col s h h'.
 Proof. exact apply_op_step. Qed.
 Print Assumptions C13_independent_step.
+
+(* interleaved histories: before an operation of side s the identities not yet allocated may be given colour s
+   (they do not occur in the heap), so the step theorem applies to every operation of any interleaving and the
+   cells of the other side, whatever it is at that moment, are unchanged by it *)
+Theorem C13_independent_recolor :
+  forall col h s, closed h -> sep col h -> inv (fun x => if Pos.leb (next h) x then s else col x) s h.
+Proof. exact inv_recolor. Qed.
+Print Assumptions C13_independent_recolor.
 
 (* after a clone the invariant holds for both colourings, so: any history of edits of the clone (of objects
    created by the clone or later) leaves every cell of the original exactly as it was before cloning ... *)
